@@ -59,6 +59,7 @@ func build() []*G {
 	k := kilic.NewBLS12381Suite()
 	g1 = mk("kilic-g1", "bls12381g1", "modint", "g1", k.G1(), k, false, true)
 	g2 = mk("kilic-g2", "", "modint", "g2", k.G2(), k, false, true)
+	g2.Grp = "bls12381g2" // byte-level reference model (Groups/BlsG2.lean)
 	gt = mk("kilic-gt", "", "modint", "gt", k.GT(), k, false, false)
 	out = append(out, g1, g2, gt)
 	pcache = append(pcache, &P{"kilic", k, g1, g2, gt})
@@ -66,6 +67,7 @@ func build() []*G {
 	c := circl.NewSuite()
 	g1 = mk("circl-g1", "bls12381g1", "circl", "g1", c.G1(), c, false, true)
 	g2 = mk("circl-g2", "", "circl", "g2", c.G2(), c, false, true)
+	g2.Grp = "bls12381g2" // byte-level reference model (Groups/BlsG2.lean)
 	gt = mk("circl-gt", "", "circl", "gt", c.GT(), c, false, false)
 	out = append(out, g1, g2, gt)
 	pcache = append(pcache, &P{"circl", c, g1, g2, gt})
@@ -73,6 +75,7 @@ func build() []*G {
 	gn := gnark.NewSuite()
 	g1 = mk("gnark-g1", "bls12381g1", "gnark", "g1", gn.G1(), gn, false, true)
 	g2 = mk("gnark-g2", "", "gnark", "g2", gn.G2(), gn, false, true)
+	g2.Grp = "bls12381g2" // byte-level reference model (Groups/BlsG2.lean)
 	gt = mk("gnark-gt", "", "gnark", "gt", gn.GT(), gn, false, false)
 	out = append(out, g1, g2, gt)
 	pcache = append(pcache, &P{"gnark", gn, g1, g2, gt})
